@@ -115,6 +115,22 @@ impl<'a> Dumper<'a> {
     }
 }
 
+/// canonical id of an arbitrary raw id (also of ids that no row mentions any more)
+pub fn canon_of(eg: &EGraph, tables: &[String], id: u32) -> Option<u32> {
+    for t in tables {
+        if let Some(f) = eg.get_function(t) {
+            let ft = f.func_type();
+            for s in ft.input.iter().chain(std::iter::once(&ft.output)) {
+                if s.is_eq_sort() {
+                    let cid = eg.value_to_class_id(s, Value::new_const(id)).to_string();
+                    return cid.rsplit_once('-').and_then(|x| x.1.parse().ok());
+                }
+            }
+        }
+    }
+    None
+}
+
 pub fn dump(eg: &EGraph, tables: &[String]) -> Result<(J, J, J), String> {
     let mut d = Dumper::new(eg);
     let mut tabs = vec![];
@@ -208,6 +224,104 @@ pub fn run_text(eg: &mut EGraph, text: &str) -> (&'static str, Vec<CommandOutput
     }
 }
 
+// ---------------------------------------------------------------- instrumented scheduler (C18)
+#[derive(Default)]
+pub struct SchedShared {
+    /// rule name -> (mode, mask, seek)
+    policy: std::collections::HashMap<String, (String, u64, bool)>,
+    /// rule name -> names of the head's free variables
+    vars: std::collections::HashMap<String, Vec<String>>,
+    /// what filter_matches saw and did: (rule, offered tuples (raw), chosen indices, answer)
+    offers: Vec<(String, Vec<Vec<u32>>, Vec<usize>, bool)>,
+}
+
+#[derive(Clone)]
+pub struct Instr {
+    shared: std::sync::Arc<std::sync::Mutex<SchedShared>>,
+}
+
+impl egglog::scheduler::Scheduler for Instr {
+    fn filter_matches(&mut self, rule: &str, _ruleset: &str, m: &mut egglog::scheduler::Matches) -> bool {
+        let mut g = self.shared.lock().unwrap();
+        let vars = g.vars.get(rule).cloned().unwrap_or_default();
+        let n = m.match_size();
+        let mut offered = vec![];
+        for i in 0..n {
+            let mt = m.get_match(i);
+            let mut t = vec![];
+            for v in &vars {
+                match catch_unwind(AssertUnwindSafe(|| mt.get_value(v).rep())) {
+                    Ok(x) => t.push(x),
+                    Err(_) => {
+                        eprintln!("conform: scheduler match of rule {rule} has no variable {v}");
+                        std::process::exit(2);
+                    }
+                }
+            }
+            offered.push(t);
+        }
+        let (mode, mask, seek) = g.policy.get(rule).cloned().unwrap_or(("all".to_string(), 0, true));
+        let mut chosen = vec![];
+        match mode.as_str() {
+            "all" => {
+                m.choose_all();
+                chosen = (0..n).collect();
+            }
+            "none" => {}
+            _ => {
+                for i in 0..n {
+                    if (mask >> (i % 16)) & 1 == 1 {
+                        m.choose(i);
+                        chosen.push(i);
+                    }
+                }
+            }
+        }
+        g.offers.push((rule.to_string(), offered, chosen, seek));
+        seek
+    }
+}
+
+/// one scheduler step as dictated by the session; returns (res, msg, updated, sched json)
+fn sched_step(eg: &mut EGraph, sid: egglog::scheduler::SchedulerId, shared: &std::sync::Arc<std::sync::Mutex<SchedShared>>, c: &J)
+    -> (&'static str, String, Option<bool>, J) {
+    {
+        let mut g = shared.lock().unwrap();
+        g.policy.clear();
+        g.vars.clear();
+        g.offers.clear();
+        for r in c["rules"].as_array().cloned().unwrap_or_default() {
+            let name = r["name"].as_str().unwrap_or("").to_string();
+            g.policy.insert(name.clone(), (r["mode"].as_str().unwrap_or("all").to_string(), r["mask"].as_u64().unwrap_or(0), r["seek"].as_u64().unwrap_or(1) == 1));
+            g.vars.insert(name, r["vars"].as_array().map(|a| a.iter().map(|v| format!("v{}", v.as_u64().unwrap_or(0))).collect()).unwrap_or_default());
+        }
+    }
+    let rs = c["rs"].as_str().unwrap_or("").to_string();
+    let r = catch_unwind(AssertUnwindSafe(|| eg.step_rules_with_scheduler(sid, &rs)));
+    let (res, msg, upd) = match r {
+        Ok(Ok(rep)) => ("ok", String::new(), Some(rep.updated)),
+        Ok(Err(e)) => ("err", e.to_string(), None),
+        Err(p) => ("panic", p.downcast_ref::<String>().cloned().or_else(|| p.downcast_ref::<&str>().map(|s| s.to_string())).unwrap_or_default(), None),
+    };
+    let g = shared.lock().unwrap();
+    let mut out = vec![];
+    for (rule, offered, chosen, seek) in &g.offers {
+        let decl = c["rules"].as_array().and_then(|a| a.iter().find(|r| r["name"].as_str() == Some(rule.as_str())).cloned()).unwrap_or(J::Null);
+        let sorts: Vec<String> = decl["sorts"].as_array().map(|a| a.iter().map(|x| x.as_str().unwrap_or("E").to_string()).collect()).unwrap_or_default();
+        let off: Vec<J> = offered.iter().map(|t| {
+            J::Array(t.iter().enumerate().map(|(i, v)| {
+                match sorts.get(i).map(|s| s.as_str()) {
+                    Some("i64") => json!([0, eg.value_to_base::<i64>(Value::new_const(*v))]),
+                    Some("bool") => json!([0, eg.value_to_base::<bool>(Value::new_const(*v)) as i64]),
+                    _ => json!([1, v]),
+                }
+            }).collect())
+        }).collect();
+        out.push(json!({"r": decl["idx"], "vars": decl["vars"], "name": rule, "offered": off, "chosen": chosen, "seek": *seek as u8}));
+    }
+    (res, msg, upd, J::Array(out))
+}
+
 fn strings(j: &J) -> Vec<String> {
     j.as_array().map(|a| a.iter().map(|x| x.as_str().unwrap_or("").to_string()).collect()).unwrap_or_default()
 }
@@ -229,6 +343,9 @@ pub fn run_session(sess: &J, out: &mut TraceOut) -> Result<(), String> {
     }
     out.emit(decl);
     let steps = sess["steps"].as_array().ok_or("steps")?;
+    let mut sched: Option<(egglog::scheduler::SchedulerId, std::sync::Arc<std::sync::Mutex<SchedShared>>)> = None;
+    let mut maxid: u32 = 0;
+    let want_fcanon = steps.iter().any(|st| st["c"]["k"].as_str() == Some("sstep"));
     for (i, st) in steps.iter().enumerate() {
         if st["op"].as_str() == Some("clone") {
             // EGraph::clone(): the copy becomes slot 1 (replacing an earlier copy)
@@ -244,7 +361,32 @@ pub fn run_session(sess: &J, out: &mut TraceOut) -> Result<(), String> {
         }
         let slot = st["slot"].as_u64().unwrap_or(0) as usize;
         let text = st["text"].as_str().ok_or("text")?;
-        let (res, outs, msg) = run_text(&mut slots[slot], text);
+        let mut sched_json = J::Null;
+        let mut sched_upd = None;
+        let (res, outs, msg) = if st["c"]["k"].as_str() == Some("sstep") {
+            if sched.is_none() {
+                let shared = std::sync::Arc::new(std::sync::Mutex::new(SchedShared::default()));
+                let id = slots[0].add_scheduler(Box::new(Instr { shared: shared.clone() }));
+                sched = Some((id, shared));
+            }
+            let (id, shared) = sched.as_ref().unwrap();
+            let (res, msg, upd, sj) = sched_step(&mut slots[0], *id, shared, &st["c"]);
+            // every raw id the scheduler was shown must be nameable: remember them for the canonical-id map
+            for q in sj.as_array().cloned().unwrap_or_default() {
+                for t in q["offered"].as_array().cloned().unwrap_or_default() {
+                    for v in t.as_array().cloned().unwrap_or_default() {
+                        if v[0].as_u64() == Some(1) {
+                            maxid = maxid.max(v[1].as_u64().unwrap_or(0) as u32);
+                        }
+                    }
+                }
+            }
+            sched_json = sj;
+            sched_upd = upd;
+            (res, vec![], msg)
+        } else {
+            run_text(&mut slots[slot], text)
+        };
         if !st["raw"].is_null() {
             // large-database sessions: outcome always, raw dump only where asked for
             let mut ev = json!({"e": "rawcmd", "i": i, "c": st["c"], "text": text, "res": res, "msg": msg});
@@ -298,8 +440,19 @@ pub fn run_session(sess: &J, out: &mut TraceOut) -> Result<(), String> {
                 ev["ocont"] = ocont;
             }
         }
-        if let Some(u) = upd {
+        if let Some(u) = upd.or(sched_upd) {
             ev["upd"] = json!(if u { 1 } else { 0 });
+        }
+        if !sched_json.is_null() {
+            ev["sched"] = sched_json;
+        }
+        if want_fcanon {
+            // canonical id of EVERY raw id seen so far in this session (also displaced ones)
+            for p in ev["canon"].as_array().cloned().unwrap_or_default() {
+                maxid = maxid.max(p[0].as_u64().unwrap_or(0) as u32);
+            }
+            let fc: Vec<J> = (0..=maxid).filter_map(|id| canon_of(&slots[slot], &tables, id).map(|c| json!([id, c]))).collect();
+            ev["fcanon"] = J::Array(fc);
         }
         out.emit(ev);
     }
@@ -307,7 +460,9 @@ pub fn run_session(sess: &J, out: &mut TraceOut) -> Result<(), String> {
 }
 
 pub fn main(args: &[String]) -> Result<(), String> {
-    std::panic::set_hook(Box::new(|_| {}));
+    if std::env::var("CONFORM_VERBOSE").is_err() {
+        std::panic::set_hook(Box::new(|_| {}));
+    }
     let inp = arg(args, "--in").ok_or("--in")?;
     let outp = arg(args, "--out").ok_or("--out")?;
     let mut out = TraceOut::create(outp)?;
